@@ -255,7 +255,8 @@ def build_params(cfg, out_name='results'):
             # the documented "wrap" form with a user-chosen results_key, for a plain function and a psi method
             params['connect_measurements'] += [
                 ['checks.c18_models', 'wrap constant_measurement', {'results_key': 'my_const', 'value': 7.0}],
-                ['psi_method', 'wrap entanglement_entropy', {'results_key': 'S_wrapped'}]]
+                ['psi_method', 'wrap entanglement_entropy', {'results_key': 'S_wrapped'}],
+                ['checks.c18_models', 'm_late']]  # a key that first appears at the second measurement
     return params
 
 
